@@ -2,14 +2,193 @@
 package main
 
 import (
+	"fmt"
+	"os"
+	"path/filepath"
+	"strconv"
+	"strings"
+
 	"verifh/vh"
 )
 
-// corpus: programs replayed first (minimised past failures)
-func (g *Gen) corpus() {
+func kindByName(n string) *Kind {
+	for _, k := range kinds {
+		if k.Name == n {
+			return k
+		}
+	}
+	panic("unknown kind " + n)
 }
 
-// writeCases: integer cases on variable places as Coq terms (cases_NNN.v)
+// corpus: the exact inputs of the recorded findings, replayed first (program, operand kind, class key)
+func (g *Gen) corpus() {
+	type item struct{ name, kind, src, class string }
+	items := []item{
+		{"xor-field", "uint8", `func(a uint8) string { var s struct{ X uint8 }; s.X = a; s.X ^= 1; return show(s.X) }`, "finding:place-xor-shift-dispatch"},
+		{"shl-deref", "int", `func(a int) string { x := a; p := &x; *p <<= 3; return show(x) }`, "finding:place-xor-shift-dispatch"},
+		{"shr-elem", "int16", `func(a int16) string { s := []int16{a}; s[0] >>= 2; return show(s[0]) }`, "finding:place-xor-shift-dispatch"},
+		{"float-mul-zero", "float64", `func(a float64) string { x := a; x *= 0; return show(x) }`, "finding:const-shortcut-nonint"},
+		{"float-add-zero", "float64", `func(a float64) string { x := a; x += 0; return show(x) }`, "finding:const-shortcut-nonint"},
+		{"float-quo-zero", "float32", `func(a float32) string { x := a; x /= 0; return show(x) }`, "finding:const-shortcut-nonint"},
+		{"quo-maxuint64", "uint64", `func(a uint64) string { x := a; x /= 18446744073709551615; return show(x) }`, "finding:quo-maxuint64"},
+		{"quopow2-boxed", "int", `func(a int) string { x1_int = a; x1_int /= 8; return show(x1_int) }`, "finding:quopow2-varbind"},
+		{"map-noop", "int", `func(a int) string { m := map[string]int{}; m["z"] += 0; return show(len(m), a) }`, "finding:map-noop-store"},
+		{"map-quo-missing", "int32", `func(a int32) string { m := map[string]int32{}; m["z"] /= 64; return show(len(m), m["z"], a) }`, "finding:map-missing-key-panic"},
+		{"blank-both", "int", `func(a int) string { b := a; _, _ = a, b; return show(1) }`, "finding:assign2-blank"},
+		{"blank-first", "int", `func(a int) string { x, y := a, a+1; _, x = x, y; return show(x) }`, "finding:assign2-blank"},
+	}
+	for _, it := range items {
+		k := kindByName(it.kind)
+		f := &Fn{Mode: "F", Op: "corpus", K: k, KV: k, Place: "corpus-" + it.name, Rhs: "V", Params: []*Kind{k}, Src: it.src, Class: it.class}
+		f.Rows = g.rows1(k, f.Key(-1), 6)
+		g.add(f)
+	}
+	// minimised past failures: corpus/C02/*.go.txt, one function literal `func(a K) string {...}` per file, first line `// kind: K`
+	dir := filepath.Join(os.Getenv("VERIF_DIR"), "corpus", "C02")
+	if os.Getenv("VERIF_DIR") == "" {
+		dir = "/verif/corpus/C02"
+	}
+	files, _ := filepath.Glob(filepath.Join(dir, "*.go.txt"))
+	for _, fn := range files {
+		b, err := os.ReadFile(fn)
+		if err != nil {
+			continue
+		}
+		lines := strings.SplitN(string(b), "\n", 2)
+		if len(lines) < 2 || !strings.HasPrefix(lines[0], "// kind: ") {
+			continue
+		}
+		k := kindByName(strings.TrimSpace(strings.TrimPrefix(lines[0], "// kind: ")))
+		f := &Fn{Mode: "F", Op: "corpus", K: k, KV: k, Place: "corpus-" + filepath.Base(fn), Rhs: "V", Params: []*Kind{k}, Src: strings.TrimSpace(strings.ReplaceAll(lines[1], "\n", " "))}
+		f.Rows = g.rows1(k, f.Key(-1), 6)
+		g.add(f)
+	}
+}
+
+var coqOp = map[string]string{"+=": "Add", "-=": "Sub", "*=": "Mul", "/=": "Quo", "%=": "Rem", "&=": "And", "|=": "Or", "^=": "Xor", "&^=": "AndNot", "<<=": "Shl", ">>=": "Shr"}
+
+func coqInt(k *Kind, u uint64) string {
+	if k.Cat == cInt {
+		return vh.CoqZ(int64(u))
+	}
+	return strconv.FormatUint(u, 10) + "%Z"
+}
+
+// writeCases: integer cases on variable places as Coq terms
+//
+//	mkCase idx (KOp Add | KSet | KInc | KDec) kind class hops (RConst | RExpr) old operand obs
+//
+// obs = what GOMACRO left in the variable (ObsVal z) or the run-time panic; evaluated in Coq by the Go specification
+// (Common.GoInt through Sem.go_binop / go_shift) and by the regenerated table row of that (operator, kind, hops, class)
 func (g *Gen) writeCases(a *vh.Args, rep *vh.Report) int {
-	return 0
+	header := "From Coq Require Import List NArith ZArith.\nFrom Verif Require Import Common.GoStr GoLite.Syntax GoLite.Sem C01.Model C02.Model.\nAdd LoadPath \".\" as Gen.\nFrom Gen Require Gen_var_ops Gen_var_set Gen_var_shifts.\nImport ListNotations.\nOpen Scope Z_scope.\nDefinition tables := Gen_var_ops.table ++ Gen_var_set.table ++ Gen_var_shifts.table."
+	if stale, _ := filepath.Glob(a.Path("cases_*.v")); len(stale) > 0 {
+		for _, f := range stale {
+			os.Remove(f)
+		}
+	}
+	cases := vh.NewCases(a, header, "case", "mismatches tables", 500)
+	idx := 0
+	per := 1
+	if a.Thorough() {
+		per = 4
+	}
+	for _, f := range g.fns {
+		if f.Coq == nil || f.K == nil || !f.K.IsInt() || f.gm == nil || f.ExpectCE || f.Class != "" {
+			continue
+		}
+		var st string
+		switch f.Op {
+		case "=":
+			st = "KSet"
+		case "++":
+			st = "KInc"
+		case "--":
+			st = "KDec"
+		default:
+			op, ok := coqOp[f.Op]
+			if !ok {
+				continue
+			}
+			st = "(KOp " + op + ")"
+		}
+		shift := f.Op == "<<=" || f.Op == ">>="
+		rhs := "RExpr"
+		if f.Rhs == "C" {
+			rhs = "RConst"
+		}
+		picked := 0
+		for j := 0; j < len(f.Rows) && picked < per; j++ {
+			row := (f.ID + j*7) % len(f.Rows)
+			old := f.Rows[row][0]
+			// operand
+			var v string
+			switch {
+			case f.Op == "++" || f.Op == "--":
+				v = "VUnit"
+			case f.Rhs == "C":
+				c, err := strconv.ParseInt(f.CText, 10, 64)
+				cu := uint64(c)
+				if err != nil {
+					u, err2 := strconv.ParseUint(f.CText, 10, 64)
+					if err2 != nil {
+						continue
+					}
+					cu = u
+				}
+				if shift {
+					v = "(VInt GUint64 " + strconv.FormatUint(cu, 10) + "%Z)"
+				} else {
+					v = "(VInt " + coqKind(f.K) + " " + coqInt(f.K, f.K.norm(cu)) + ")"
+				}
+			default:
+				ov := f.Rows[row][1]
+				if shift {
+					if ov.K.Cat == cInt && int64(ov.U) < 0 {
+						continue // negative signed count: Expr.AsUint64 panics (C01)
+					}
+					v = "(VInt GUint64 " + strconv.FormatUint(ov.U, 10) + "%Z)"
+				} else {
+					v = coqVal(ov)
+				}
+			}
+			// observation
+			var obs string
+			o := f.gm[row]
+			switch {
+			case o == "panic:div0":
+				obs = "(ObsPanic PDiv0)"
+			case strings.HasPrefix(o, "v:"):
+				parts := strings.Split(strings.TrimPrefix(o, "v:"), " ")
+				if len(parts) < 3 {
+					continue
+				}
+				if f.K.Cat == cInt {
+					z, err := strconv.ParseInt(parts[1], 10, 64)
+					if err != nil {
+						continue
+					}
+					obs = "(ObsVal " + vh.CoqZ(z) + ")"
+				} else {
+					z, err := strconv.ParseUint(parts[1], 10, 64)
+					if err != nil {
+						continue
+					}
+					obs = "(ObsVal " + strconv.FormatUint(z, 10) + "%Z)"
+				}
+			default:
+				continue
+			}
+			cl := "CInt"
+			if f.Coq.class == "VarBind" {
+				cl = "CVal"
+			}
+			cases.Add(fmt.Sprintf("mkCase %d %s %s %s %s %s %s %s %s", idx, st, coqKind(f.K), cl, f.Coq.hops, rhs, coqInt(f.K, old.U), v, obs))
+			rep.CaseInput(idx, map[string]string{"func": f.Src, "toplevel_statement": f.TStmt, "operands": f.rowText(row), "place": f.Place, "gomacro": o})
+			idx++
+			picked++
+		}
+	}
+	cases.Close()
+	return idx
 }
